@@ -350,6 +350,7 @@ pub fn run(tier: Tier, seed: u64) -> i32 {
     validate_key(&mut st, &res.keys, slice, oracle(), &deadline);
     st.merge(reuse_part(&deadline));
     st.merge(api_use_part(&deadline));
+    st.merge(crate::props::c14::cloned_signal_list_part(&deadline));
     st.sample(|| json!({"cases": ncases, "deviation_kinds": deviations(&["Q".to_string(), "R".to_string(), "S".to_string()], &["Q".to_string(), "R".to_string(), "S".to_string()]).iter().map(|d| d.0.clone()).collect::<Vec<_>>()}));
     let meta = CheckMeta {
         id: "C13",
